@@ -138,6 +138,16 @@ def oracle(prog, obs):
         elif ev[0] == "hook" and ev[1] in ("before_scenario", "after_scenario"):
             touched.setdefault(ev[2], []).append(ev)
     reached_all = not cfg.get("stop") and not cfg.get("faults") and not obs.get("aborted")
+    written = set(t for _n, _s, tags in scenarios_of(prog) for t in tags)
+    for f in prog["features"]:
+        written |= set(f["tags"])
+        for it in f["items"]:
+            written |= set(it["tags"])
+    for ev in obs["log"]:
+        if ev[0] == "hook" and ev[1] in ("before_tag", "after_tag") and ev[2] not in written:
+            out.append(("%s hook called for the tag %r, which no element carries (tags written: %s)" % (ev[1], ev[2], sorted(written)),
+                        "tag-nobody-wrote"))
+            break
     selected = {}
     excluded = excluded_scenarios(prog, obs)
     for name, steps, tags in scenarios_of(prog):
@@ -260,6 +270,10 @@ def suites(tier, seed):
         p["cfg"]["expr"] = POOL[i % len(POOL)] if i < 4 * len(POOL) else rnd.choice(POOL)
         p["cfg"]["stop"] = False
         p["cfg"]["faults"] = []
+        if i % 3 == 0:
+            # every outline also carries a parametrised tag whose placeholder is no column of its Examples tables: such a tag
+            # is dropped from the rows, it never becomes a tag of its own (t<nosuch> would read tnosuch and match t*)
+            p["cfg"]["noise"] = dict(p["cfg"].get("noise") or {}, phantom_tag=rnd.choice(["t<nosuch>", "t<nosuch>", "<kind>", "t1<y>"]))
         cases.append(p)
     # a stratum where cuts do happen (stop / abort): only the unconditional clauses apply
     for i in range(n // 4):
